@@ -33,8 +33,12 @@ func TestCancelDuringDispatch(t *testing.T) {
 	})
 }
 
+var collRace = vkit.NewCollector("C06", "TestWaitRace", "free-running stress on real goroutines (race detector on): 200-600 rounds per case in which a quick Async handler signals that it is about to return and spins for a varying time, the publisher publishes a second event as soon as it sees the signal and calls Wait; oracle = every invocation finished when Wait returns. Non-trivial = >=2 rounds.")
+
+func TestWaitRace(t *testing.T) { vkit.Check(t, collRace, GenRace, RunRace) }
+
 func TestReplay(t *testing.T) {
 	r := vkit.NeedReplay(t)
 	_ = vkit.ReplayCase(t, r, coll, func(c *Case) *vkit.Outcome { return Run(t, c) }) ||
-		vkit.ReplayCase(t, r, collCancel, func(c *CancelCase) *vkit.Outcome { return RunCancel(t, c) })
+		vkit.ReplayCase(t, r, collRace, RunRace) || vkit.ReplayCase(t, r, collCancel, func(c *CancelCase) *vkit.Outcome { return RunCancel(t, c) })
 }
